@@ -387,10 +387,11 @@ theorem respond_codec_first (s : Srv) (c st ct : Bytes) (n : Nat) (h : (respond 
 
 /-! ## The advertised capability header -/
 
-/-- Server states reachable from `NewHttpServer` by any sequence of `SetCompressionLevel` calls
-(accepted or refused). -/
+/-- Server states reachable from either constructor (`NewHttpServer`, `NewHttpServerWithKey`) by
+any sequence of `SetCompressionLevel` calls (none, repeated same level, accepted or refused). -/
 inductive Reach : Srv → Prop
   | init : Reach initSrv
+  | initKeyed : Reach initSrvWithKey
   | set (s : Srv) (n : Int) : Reach s → Reach (setLevel s n).1
 
 theorem applyLevel_inv (s : Srv) (l : Int) :
@@ -402,6 +403,7 @@ theorem advert_eq_producible (s : Srv) (h : Reach s) :
     s.advert = joinCommaSpace (producible s) := by
   induction h with
   | init => exact applyLevel_inv _ _
+  | initKeyed => exact applyLevel_inv _ _
   | set s n _ ih =>
     unfold setLevel
     split
@@ -480,5 +482,10 @@ example : respond (setLevel initSrv 0).1 (ofChars "zstd".toList) [] arrowCT 10 =
 example : (setLevel initSrv 0).1.advert = [] ∧ (setLevel (setLevel initSrv 0).1 3).1.advert =
     ofChars "zstd, gzip".toList ∧ (setLevel initSrv 9) = (initSrv, false) := by decide
 example : Reach (setLevel (setLevel initSrv (-2)).1 4).1 := Reach.set _ _ (Reach.set _ _ Reach.init)
+/-- the keyed constructor, left alone or set to the level it already has (twice) -/
+example : initSrvWithKey.advert = ofChars "zstd, gzip".toList ∧
+    (setLevel (setLevel initSrvWithKey 1).1 1).1.advert = ofChars "zstd, gzip".toList ∧
+    Reach (setLevel (setLevel initSrvWithKey 1).1 1).1 :=
+  ⟨by decide, by decide, Reach.set _ _ (Reach.set _ _ Reach.initKeyed)⟩
 
 end Vgi.Props.C17
